@@ -17,19 +17,19 @@ CHECKS = {
          "Decides the name-table and key-agreement clauses (necessary conditions of the round trip); the behaviour of go-ucfg / yaml.v2 on concrete documents is third-party run-time behaviour and is not claimed.",
          "Trusted: go/types, go/ssa, tag-key conventions of go-ucfg, yaml.v2 and encoding/json. Not covered: number widths, validate tags, concrete documents.",
          "DESIGN.md section 4, C14"),
- "C08": ("other", "SSA value-flow chain followed backwards from the installation call through helper functions: seccomp(2) arg 3 <- SockFprog{Len: len(S), Filter: &S[0]} <- S = element-wise conversion (counted-loop abstraction: every index once, unconditional body, field-for-field) of exactly the slice returned by bpf.Assemble <- Policy.Assemble of filter.Policy; wrapper parameters reach the raw syscall through conversions only",
+ "C08": ("other", "SSA value-flow chain followed backwards from the installation call through helper functions: seccomp(2) arg 3 <- SockFprog{Len: len(S), Filter: &S[0]} <- S = element-wise conversion (counted-loop abstraction: every index once, unconditional body, field-for-field) of exactly the slice returned by bpf.Assemble <- Policy.Assemble of filter.Policy; wrapper parameters reach the raw syscall through conversions only; when LoadFilter is split into helpers/closures the same chain is decided on the loader's event traces (engine E8: path enumeration with fallible-call forks and path-specific value following)",
          "Program-identity clause only (second sentence of the property). The kernel's decisions after the load are run-time behaviour: not applicable to static analysis and not claimed.",
          "Trusted: go/ssa, SYS_SECCOMP oracle, bpf.Assemble maps one instruction to one raw instruction.",
          "DESIGN.md section 4, C08"),
- "C09": ("other", "result-inspection and error-discipline rules on SSA with dominators: errno and r1 of the raw seccomp call, failure edges of every fallible call in LoadFilter, `return nil` only behind the seccomp success edge, no syscall-reaching call before both compile steps succeeded, constant probe triple",
+ "C09": ("other", "result-inspection and error-discipline rules on SSA with dominators: errno and r1 of the raw seccomp call, failure edges of every fallible call in LoadFilter, `return nil` only behind the seccomp success edge, no syscall-reaching call before both compile steps succeeded, constant probe triple; second decision procedure for the LoadFilter-shaped rules: event traces of the loader (E8); error-discipline helpers fall back on path enumeration (E9)",
          "All paths through the loader, including the failure paths no test executes; kernel return-value contract is trusted (seccomp(2), prctl(2)).",
          "Trusted: go/ssa dominators; seccomp(2) RETURN VALUE section (TSYNC: positive tid, errno 0); kernel answers EINVAL to (STRICT, flags!=0).",
          "DESIGN.md section 4, C09"),
- "C10": ("other", "SSA value-origin: Filter.Flag reaches syscall argument 2 through conversions only; flag constants vs UAPI; sandbox literal carries TSYNC",
+ "C10": ("other", "SSA value-origin: Filter.Flag reaches syscall argument 2 through conversions only; flag constants vs UAPI; sandbox literal carries TSYNC; the flag argument is resolved along the loader's event traces (E8) when the call sits in a helper or closure",
          "Flag-word clause only; 'every thread under every schedule' is the kernel's seccomp_sync_threads plus the scheduler: not applicable to static analysis and not claimed.",
          "Trusted: go/ssa; linux/seccomp.h flag values.",
          "DESIGN.md section 4, C10"),
- "C11": ("other", "control-dependence, dominance and typestate rules on LoadFilter's CFG: prctl iff filter.NoNewPrivs, before seccomp, error returned, raw prctl arguments resolved through the variadic copy, both syscalls bracketed by runtime.LockOSThread/UnlockOSThread",
+ "C11": ("other", "control-dependence, dominance and typestate rules on LoadFilter's CFG: prctl iff filter.NoNewPrivs, before seccomp, error returned, raw prctl arguments resolved through the variadic copy, both syscalls bracketed by runtime.LockOSThread/UnlockOSThread; or, for a loader split into helpers/closures, the same statements as trace properties over the enumerated event traces (E8: prctl only under the assumption NoNewPrivs=true, every seccomp event preceded by a successful prctl iff true, lock depth > 0 and unchanged between the two calls)",
          "Holds on every path and therefore under every goroutine schedule (thread pinning is a structural fact); kernel acceptance is trusted.",
          "Trusted: go/ssa dominators, runtime.LockOSThread semantics, prctl(2) argument contract.",
          "DESIGN.md section 4, C11"),
@@ -41,7 +41,7 @@ CHECKS = {
          "Covers every function of the disasm package on all paths (any text); necessary structural conditions for each clause of the statement.",
          "Trusted: go/ssa, the compiler's prove pass (compiles, never runs), listed std functions do not panic on any string; API root pointer parameters assumed non-nil.",
          "DESIGN.md section 4, C16"),
- "C17": ("other", "publish-by-rename typestate, interprocedural: the cache path (the value the dump producer returns on success, followed into helpers as an alias set) is never created directly, only os.Rename'd into place; the rename is dominated, through helpers whose nil returns establish it, by the checked success of Run, Flush and Close; the producer returns the path only behind a successful publish or a validated cache hit (inline or in a boolean helper): complete, error-free read of a 64-byte marker equal to the binary's SHA-256",
+ "C17": ("other", "publish-by-rename typestate, interprocedural: the cache path (the value the dump producer returns on success, followed into helpers as an alias set) is never created directly, only os.Rename'd into place; the rename is dominated, through helpers whose nil returns establish it, by the checked success of Run, Flush and Close; the producer returns the path only behind a successful publish or a validated cache hit (inline or in a boolean helper): complete, error-free read of a 64-byte marker equal to the binary's SHA-256; where one error variable is shared by several calls or a deferred closure rewrites the named result, the same success/failure statements are decided by path-sensitive enumeration of the function's paths (E9)",
          "Decides which file states any crash point or disassembler failure can leave under the trusted name from the shape of the writer (all paths).",
          "Trusted: go/ssa dominators, atomic rename within a directory, exec.Cmd.Run error contract. Not covered: directory fsync durability (not in the statement).",
          "DESIGN.md section 4, C17"),
